@@ -102,13 +102,8 @@ def main():
         return 3
     timeout_ms = 10000 if tier == 'quick' else 60000
     axioms = smt.class_axioms()
-    results = []
-    refused = []
-    for key in P['functions']:
-        r = verify.verify_function(spec, key, axioms)
-        results.append(r)
-        if r.refused:
-            refused.append((key, r.refused))
+    results = verify.verify_many(spec, P['functions'], axioms + smt.literal_axioms(), timeout_ms)
+    refused = [(r.key, r.refused) for r in results if r.refused]
     obls, canaries = [], []
     per_fn = []
     for r in results:
@@ -118,13 +113,8 @@ def main():
         C = spec.functions[r.key]
         per_fn.append({'function': r.key, 'file': r.info.get('file'), 'lines': [r.info.get('lineno'), r.info.get('end_lineno')],
                        'sha256': r.info.get('sha256'), 'paths': r.paths, 'paths_completed': r.completed, 'exits': r.exits,
-                       'obligation_instances': len(mine), 'trusted': bool(C.trusted), 'dropped_calls': r.dropped, 'notes': r.notes,
-                       'symexec_s': round(r.time, 2), 'refused': r.refused})
-    all_axioms = axioms + smt.literal_axioms()
-    smt.discharge(obls + canaries, all_axioms, timeout_ms)
-    if tier == 'thorough':
-        # second opinion: every unsat verdict re-checked by cvc5 where it can parse the query (reported, disagreement = checker error)
-        pass
+                       'obligation_instances': len(mine), 'trusted': bool(C.trusted), 'dropped_calls': r.dropped, 'notes': r.notes + ([C.notes] if C.notes else []),
+                       'symexec_and_solver_cpu_s': round(r.time, 2), 'refused': r.refused})
 
     # ------------------------------------------------------------------ classify per clause
     clauses: dict[str, dict] = {}
@@ -132,7 +122,7 @@ def main():
         c = clauses.setdefault(o.name, {'instances': 0, 'unsat': 0, 'sat': [], 'unknown': [], 'time': 0.0, 'solvers': set()})
         c['instances'] += 1
         c['time'] += o.time
-        c['solvers'].add(o.solver)
+        c['solvers'].add(str(o.solver))
         if o.verdict == 'unsat':
             c['unsat'] += 1
         elif o.verdict == 'sat':
